@@ -189,6 +189,41 @@ static std::vector<Fn> catalogue() {
     add("C19", "rng;draws", {V(rng(5); fill(A.r1, 5, 1); return cat(cat(flat(randn(5)), flat(dsplib::rand(3))), cat(flat(randi({-3, 3}, 4)), flat(awgn(A.r1, 10))));),
                              V(rng(6); fill(A.r1, 5, 1); return cat(cat(flat(randn(5)), flat(dsplib::rand(3))), cat(flat(randi({-3, 3}, 4)), flat(awgn(A.r1, 10))));),
                              V(rng(5); fill(A.c1, 4, 1); return cat(cat(flat(randn(4)), flat(randn())), flat(awgn(A.c1, 3)));), V(rng(5); return cat(flat(randi(9, 3)), flat(randn(3)));)});
+    // ------------------------------------------------------------------ length variants: the same call on inputs of different
+    // LENGTH inside one power-of-two bucket (a scratch buffer that is re-zeroed / re-sized only when the padded size changes
+    // keeps the tail of a longer earlier input); every order of long/short is covered by the sequences
+    add("C10", "fft(prime lengths, one czt size)", {V(fill(A.c1, 53, 1); return flat(fft(A.c1));), V(fill(A.c1, 59, 1); return flat(fft(A.c1));), V(fill(A.c1, 61, 1); return flat(fft(A.c1));),
+                                                    V(fill(A.c1, 47, 1); return flat(fft(A.c1));)});
+    add("C02", "istft(stft) lengths", {V(fill(A.r1, 40, 1); return flat(istft(stft(A.r1, 8), 8));), V(fill(A.r1, 29, 1); return flat(istft(stft(A.r1, 8), 8));), V(fill(A.r1, 64, 1); return flat(istft(stft(A.r1, 8), 8));),
+                                       V(fill(A.r1, 17, 1); return flat(istft(stft(A.r1, 8), 8));)});
+    add("C07", "xcorr lengths", {V(fill(A.r1, 40, 1); fill(A.r2, 8, 2); return flat(xcorr(A.r1, A.r2));), V(fill(A.r1, 20, 1); fill(A.r2, 20, 2); return flat(xcorr(A.r1, A.r2));),
+                                 V(fill(A.r1, 33, 1); fill(A.r2, 5, 2); return flat(xcorr(A.r1, A.r2));), V(fill(A.r1, 8, 1); fill(A.r2, 40, 2); return flat(xcorr(A.r1, A.r2));)});
+    add("C07", "conv/FftFilter lengths", {V(fill(A.r1, 9, 1); fill(A.r2, 64, 5); FftFilter f(A.r1); return flat(f.process(A.r2));), V(fill(A.r1, 9, 1); fill(A.r2, 40, 5); FftFilter f(A.r1); return flat(f.process(A.r2));),
+                                          V(fill(A.r1, 30, 1); fill(A.r2, 7, 2); return flat(FirFilterR::conv(A.r1, A.r2));), V(fill(A.r1, 19, 1); fill(A.r2, 7, 2); return flat(FirFilterR::conv(A.r1, A.r2));)});
+    add("C08", "resample lengths", {V(fill(A.r1, 30, 1); return flat(resample(A.r1, 3, 2));), V(fill(A.r1, 20, 1); return flat(resample(A.r1, 3, 2));), V(fill(A.r1, 45, 1); return flat(resample(A.r1, 3, 2));),
+                                    V(fill(A.r1, 17, 1); return flat(resample(A.r1, 3, 2));)});
+    add("C13", "welch/mscohere lengths", {V(fill(A.r1, 200, 1); return flat(welch(A.r1, 16).pxx);), V(fill(A.r1, 130, 1); return flat(welch(A.r1, 16).pxx);),
+                                          V(fill(A.r1, 200, 1); fill(A.r2, 200, 2); return flat(mscohere(A.r1, A.r2, 16));), V(fill(A.r1, 97, 1); fill(A.r2, 97, 2); return flat(mscohere(A.r1, A.r2, 16));)});
+    add("C13", "welch(cmplx) lengths", {V(fill(A.c1, 200, 1); return flat(welch(A.c1, window::hann(8), 2, 16).pxx);), V(fill(A.c1, 130, 1); return flat(welch(A.c1, window::hann(8), 2, 16).pxx);),
+                                        V(fill(A.c1, 97, 1); return flat(welch(A.c1, window::hann(8), 2, 16).pxx);)});
+    add("C14", "hilbert(x,n) lengths", {V(fill(A.r1, 20, 1); return flat(hilbert(A.r1, 32));), V(fill(A.r1, 9, 1); return flat(hilbert(A.r1, 32));), V(fill(A.r1, 27, 1); return flat(hilbert(A.r1, 32));),
+                                        V(fill(A.r1, 9, 1); return flat(hilbert(A.r1, 16));)});
+    add("C14", "hilbert(x) lengths", {V(fill(A.r1, 60, 1); return flat(hilbert(A.r1));), V(fill(A.r1, 37, 1); return flat(hilbert(A.r1));), V(fill(A.r1, 53, 1); return flat(hilbert(A.r1));),
+                                      V(fill(A.r1, 61, 1); return flat(hilbert(A.r1));)});
+    add("C16", "sort/medfilt lengths", {V(perm(A.r1, 12, 1); return cat(flat(sort(A.r1).first), flat(medfilt(A.r1, 5)));), V(perm(A.r1, 7, 1); return cat(flat(sort(A.r1).first), flat(medfilt(A.r1, 5)));),
+                                        V(perm(A.r1, 16, 1); return cat(flat(sort(A.r1).second), flat(medfilt(A.r1, 4)));), V(perm(A.r1, 9, 1); return cat(flat(sort(A.r1).second), flat(medfilt(A.r1, 4)));)});
+    add("C17", "reductions/shape lengths", {V(fill(A.r1, 30, 1); return cat(Out{sum(A.r1), stddev(A.r1), norm(A.r1)}, flat(cumsum(A.r1)));), V(fill(A.r1, 9, 1); return cat(Out{sum(A.r1), stddev(A.r1), norm(A.r1)}, flat(cumsum(A.r1)));),
+                                            V(fill(A.r1, 30, 1); return cat(flat(upsample(A.r1, 3)), flat(delayseq(A.r1, 4)));), V(fill(A.r1, 9, 1); return cat(flat(upsample(A.r1, 3)), flat(delayseq(A.r1, 4)));)});
+    add("C18", "finddelay/gccphat lengths", {V(fill(A.r1, 100, 1); A.r2 = delayseq(A.r1, 5); return cat(flat((double)finddelay(A.r1, A.r2)), flat(gccphat(A.r2, A.r1, 8000).tau));),
+                                             V(fill(A.r1, 70, 1); A.r2 = delayseq(A.r1, 5); return cat(flat((double)finddelay(A.r1, A.r2)), flat(gccphat(A.r2, A.r1, 8000).tau));),
+                                             V(fill(A.r1, 120, 1); A.r2 = delayseq(A.r1, -9); return cat(flat((double)finddelay(A.r1, A.r2)), flat(gccphat(A.r2, A.r1, 8000).tau));),
+                                             V(fill(A.r1, 66, 1); A.r2 = delayseq(A.r1, -9); return cat(flat((double)finddelay(A.r1, A.r2)), flat(gccphat(A.r2, A.r1, 8000).tau));)});
+    add("C19", "measurement lengths", {V(fill(A.r1, 4096, 1, 1e-3); for (int i = 0; i < 4096; ++i) A.r1[i] += std::sin(2 * pi * 0.0731 * i) + 0.1 * std::sin(2 * pi * 0.1462 * i); return cat(Out{snr(A.r1), sinad(A.r1), thd(A.r1).value}, flat(thd(A.r1, 3).harmfreq));),
+                                       V(fill(A.r1, 2100, 1, 1e-3); for (int i = 0; i < 2100; ++i) A.r1[i] += std::sin(2 * pi * 0.0731 * i) + 0.1 * std::sin(2 * pi * 0.1462 * i); return cat(Out{snr(A.r1), sinad(A.r1), thd(A.r1).value}, flat(thd(A.r1, 3).harmfreq));),
+                                       V(fill(A.r1, 3000, 1, 1e-3); for (int i = 0; i < 3000; ++i) A.r1[i] += std::sin(2 * pi * 0.0731 * i) + 0.1 * std::sin(2 * pi * 0.1462 * i); return cat(Out{snr(A.r1), sinad(A.r1), thd(A.r1).value}, flat(thd(A.r1, 3).harmfreq));),
+                                       V(fill(A.r1, 2049, 1, 1e-3); for (int i = 0; i < 2049; ++i) A.r1[i] += std::sin(2 * pi * 0.0731 * i) + 0.1 * std::sin(2 * pi * 0.1462 * i); return cat(Out{snr(A.r1), sinad(A.r1), thd(A.r1).value}, flat(thd(A.r1, 3).harmfreq));)});
+    add("C19", "awgn lengths", {V(rng(5); fill(A.r1, 40, 1); return flat(awgn(A.r1, 10));), V(rng(5); fill(A.r1, 23, 1); return flat(awgn(A.r1, 10));), V(rng(5); fill(A.c1, 40, 1); return flat(awgn(A.c1, 10));),
+                                V(rng(5); fill(A.c1, 23, 1); return flat(awgn(A.c1, 10));)});
     return F;
 }
 
